@@ -534,6 +534,8 @@ EXTRA_LABELS = {
     "handle_message.pre.scope@dyn": "C14",
     "ask.deadlock_panic.requires_unanswered_chain": "C15",
     "ask.deadlock_panic.leaves_graph_as_found": "C12 C15",
+    "L1.handled_is_ordered_prefix_of_accepted_before_stop": "C01 C02",
+    "L1.stop_marker_taken_implies_all_earlier_work_handled": "C01 C02 C07",
     "ask.deadlock_panic.only_for_tracked_callers": "C15",
     "mutex.no_reentrant_lock": "C12 C14",
     "hook.on_start.inside_actor_scope": "C14",
